@@ -301,11 +301,21 @@ def check_routes(ctx, rng, fe):
         for conn in range(2):
             fw = Forwarder(face, fe, ['200'], ctx, rng, S)
 
+            late = [C(b'late'), C(b'c%d' % conn)]
+
             async def after():
-                await asyncio.sleep(0.5)
+                await asyncio.sleep(0.2)
+                # a route declared while connected is registered right away, once
+                if fe == 'v2':
+                    the_app.route(late)(lambda n, a, reply, c: None)
+                else:
+                    the_app.route(late)(lambda n, pr, a: None)
+                await asyncio.sleep(0.3)
                 the_app.shutdown()
             await the_app.main_loop(after())
+            prefixes.append(late)
             counts.append(sorted(tuple(c['prefix'] or ()) for c in fw.commands if c['verb'] == 'register'))
+            res.setdefault('expected_per_conn', []).append(sorted(tuple(p) for p in prefixes))
             res['problems'] = [p for c in fw.commands for p in c['problems']]
         res['counts'] = counts
         res['expected'] = sorted(tuple(p) for p in prefixes)
@@ -318,6 +328,7 @@ def check_routes(ctx, rng, fe):
     for i, cnt in enumerate(res['counts']):
         ctx.event('route-connection')
         ctx.case(('routes', fe, i))
+        res['expected'] = res['expected_per_conn'][i]
         if cnt != res['expected']:
             ctx.report(f'routes-not-registered-once-per-connection:{fe}', f'connection {i}: registered {len(cnt)} prefixes, expected each of {len(res["expected"])} once',
                        dict(w, got=[[c.hex() for c in n] for n in cnt]))
